@@ -107,6 +107,7 @@ type c13Layout struct {
 	ExpandCtx   []int  // context line indexes written as an identical -/+ pair
 	CollapseEq  bool   // identical adjacent -/+ pairs written once as context
 	Respace     int    // 0: as is; n>0: n blanks between every two tokens of a body line (leading indentation kept)
+	SplitCommon bool   // "-foo(REST" "+bar(REST" written as "-foo(" "+bar(" " REST": the common tail becomes a context line
 }
 
 // c13RespaceLine puts n blanks between every two Go tokens of a line (no
@@ -327,6 +328,22 @@ func c13Render(changes []c13Change, layouts []c13Layout) (string, [][]string) {
 			}
 			body = nb
 		}
+		if lo.SplitCommon {
+			var nb []c13Line
+			for i := 0; i < len(body); i++ {
+				if i+1 < len(body) && body[i].Op == '-' && body[i+1].Op == '+' && (i == 0 || body[i-1].Op != '-') && (i+2 >= len(body) || body[i+2].Op != '+') {
+					m, p := body[i].Text, body[i+1].Text
+					mi, pi := strings.IndexAny(m, "({"), strings.IndexAny(p, "({")
+					if mi >= 0 && pi >= 0 && m[mi] == p[pi] && m[mi+1:] == p[pi+1:] && strings.TrimSpace(m[mi+1:]) != "" && m[:mi] != p[:pi] {
+						nb = append(nb, c13Line{Op: '-', Text: m[:mi+1]}, c13Line{Op: '+', Text: p[:pi+1]}, c13Line{Op: ' ', Text: "  " + m[mi+1:]})
+						i++
+						continue
+					}
+				}
+				nb = append(nb, body[i])
+			}
+			body = nb
+		}
 		expand := map[int]bool{}
 		for _, i := range lo.ExpandCtx {
 			expand[i] = true
@@ -487,6 +504,10 @@ func c13DrawLayout(rt *rapid.T, ch c13Change, idx int, ops map[string]bool) c13L
 		lo.CollapseEq = true
 		ops["pair-as-context"] = true
 	}
+	if rapid.IntRange(0, 2).Draw(rt, l("splitCommon")) == 0 {
+		lo.SplitCommon = true
+		ops["common-tail-as-context"] = true
+	}
 	return lo
 }
 
@@ -581,6 +602,36 @@ var c13RepeatOpts = modelOpts{
 	MinMutants: 1, MaxMutants: 3,
 }
 
+// c13SeveralDots: changes with more than one "..." on a changed line. Which
+// "-" elision a "+" elision stands for must not depend on where the lines of
+// the pattern are broken.
+var c13SeveralDots = []struct {
+	Holes map[string]string
+	Body  []c13Line
+	File  string
+}{
+	{
+		Holes: map[string]string{"x": "identifier"},
+		Body:  []c13Line{{Op: '-', Text: "sdfoo(..., x, ...)"}, {Op: '+', Text: "sdbar(..., x, ...)"}},
+		File:  "package sd\n\nfunc f(mid int) {\n\tsdfoo(1, 2, mid, 3, 4)\n\tsdfoo(mid)\n\tsdfoo(5, mid)\n}\n",
+	},
+	{
+		Holes: map[string]string{},
+		Body:  []c13Line{{Op: '-', Text: "sdfoo(..., ctx, ...)"}, {Op: '+', Text: "sdfoo(ctx, ...)"}},
+		File:  "package sd\n\nfunc f(ctx int) {\n\tsdfoo(1, 2, ctx, 3, 4)\n\tsdfoo(ctx, 6)\n\tsdfoo(5, ctx)\n}\n",
+	},
+	{
+		Holes: map[string]string{"name": "identifier"},
+		Body:  []c13Line{{Op: '-', Text: "func name(...) (error, ...) {"}, {Op: '+', Text: "func name(...) (..., error) {"}, {Op: ' ', Text: "  ..."}, {Op: ' ', Text: "}"}},
+		File:  "package sd\n\nfunc first(a string, b int) (error, string) {\n\treturn nil, a\n}\n\nfunc second() (error, int, bool) {\n\treturn nil, 0, false\n}\n",
+	},
+	{
+		Holes: map[string]string{"k": "expression"},
+		Body:  []c13Line{{Op: '-', Text: "sdlit{..., Key: k, ...}"}, {Op: '+', Text: "sdlit{Key: k, ..., ...}"}},
+		File:  "package sd\n\nvar v = sdlit{A: 1, Key: 2, B: 3, C: 4}\n\nvar w = sdlit{Key: 5}\n",
+	},
+}
+
 func TestC13(t *testing.T) {
 	c := coll("C13")
 	nGen := 0
@@ -590,13 +641,21 @@ func TestC13(t *testing.T) {
 		if rapid.IntRange(0, 3).Draw(rt, "repeatBias") == 0 {
 			opts = c13RepeatOpts
 		}
-		mcs, why := genModelCase(rt, opts)
-		if mcs == nil {
-			c.Note("generator:" + why)
-			return
+		var cs *c13Case
+		if rapid.IntRange(0, 5).Draw(rt, "severalDots") == 0 {
+			// several elisions on one changed line, all reproduced
+			sd := rapid.SampledFrom(c13SeveralDots).Draw(rt, "severalDotsChange")
+			cs = &c13Case{File: sd.File}
+			cs.Changes = append(cs.Changes, c13Change{Desc: []string{"Several elisions."}, Holes: sd.Holes, Body: sd.Body})
+		} else {
+			mcs, why := genModelCase(rt, opts)
+			if mcs == nil {
+				c.Note("generator:" + why)
+				return
+			}
+			cs = &c13Case{File: mcs.Host}
+			cs.Changes = append(cs.Changes, c13FromPatch(mcs.Patch, mcs.Spec.Holes))
 		}
-		cs := &c13Case{File: mcs.Host}
-		cs.Changes = append(cs.Changes, c13FromPatch(mcs.Patch, mcs.Spec.Holes))
 		if rapid.IntRange(0, 3).Draw(rt, "second") == 0 {
 			// a second, simple change after the first one
 			cs.Changes = append(cs.Changes, c13Change{
